@@ -68,6 +68,9 @@ Definition iv_resize (v : intvec) (new_len value : N) : res intvec :=
 
 Definition iv_clear (v : intvec) : intvec := mkiv 0 (iwidth v) raw_new.
 
+(* reserve() only changes the capacity, which is not part of the modelled state *)
+Definition iv_reserve (v : intvec) (additional : N) : intvec := v.
+
 Fixpoint iv_items_aux (v : intvec) (i : N) (n : nat) : res (list N) :=
   match n with
   | O => Ok []
